@@ -457,6 +457,29 @@ fn vectors(thorough: bool) -> Vec<(String, Vec<bool>)> {
             }
         }
     }
+    // (d) dense prefix followed by a very sparse tail (and the mirror image): an inventory entry that does
+    // not start at the beginning of the vector and whose span is 16 / 32 / 64-bit-subinventory sized
+    for prefix in [600usize, 1024, 1536, 5000] {
+        for gap in [20_000usize, 70_000, 140_000, 300_000] {
+            for tail_ones in [1usize, 3] {
+                let mut b: Vec<bool> = (0..prefix).map(|i| i % 8 != 7).collect();
+                for t in 0..tail_ones {
+                    b.extend(std::iter::repeat(false).take(gap));
+                    b.push(true);
+                    if t == 0 {
+                        b.extend([false; 5]);
+                    }
+                }
+                v.push((format!("dense({prefix})+{tail_ones} ones {gap} bits apart"), b.clone()));
+                if gap >= 140_000 || prefix == 1024 {
+                    v.push((format!("inverse of dense({prefix})+{tail_ones} ones {gap} bits apart"), b.iter().map(|x| !x).collect()));
+                    let mut m = b.clone();
+                    m.reverse();
+                    v.push((format!("reversed dense({prefix})+{tail_ones} ones {gap} bits apart"), m));
+                }
+            }
+        }
+    }
     // exact multiples of an inventory quantum followed by a ragged tail
     for q in [4096usize, 8192] {
         for extra in [0usize, 1, 100] {
